@@ -151,15 +151,20 @@ def nontrivial(case):
     return bool(case['spec'].get('mc')) or 'MTS' in case['semantics'].values()
 
 
-def case_strategy():
-    base = st.one_of(gen_cfg.model_and_spec(),
+def strata():
+    return [gen_cfg.model_and_spec(),
                      gen_cfg.model_and_spec(want_mc=True),
                      gen_cfg.model_and_spec(force=['global_enc']),
                      gen_cfg.model_and_spec(force=['empty_itf', 'many_ports'], want_mixed=True),
                      gen_cfg.model_and_spec(force=['no_ports']),
+                     gen_cfg.model_and_spec(force=['many_provides'], want_mc=True),
+                     gen_cfg.model_and_spec(force=['prefix_ns', 'deep_ns']),
                      gen_cfg.model_and_spec(force=['deep_ns', 'same_name_siblings']),
                      gen_cfg.model_and_spec(force=['deep_ns', 'ref_extern', 'prefix_ports'], want_mc=True),
-                     gen_cfg.model_and_spec(force=['global_enc'], want_mc=True))
+                     gen_cfg.model_and_spec(force=['global_enc'], want_mc=True)]
+
+
+def with_order(base):
     return st.tuples(base, st.lists(st.integers(0, 20), min_size=3, max_size=10),
                      st.sampled_from([None, None, ['Other'], ['P', 'Q']])).map(
         lambda t: {**t[0], 'order': t[1], 'cross': t[2] if t[2] != t[0]['spec']['prefix'] else None})
@@ -303,10 +308,10 @@ def run(ctx):
         if ctx.replay.get('clause') == name:
             ctx._run_one(name, check_case, ctx.replay['case'])  # pylint: disable=protected-access
         return
-    from vf.draw import draw_cases
+    from vf.draw import draw_stratified
     from vf.runner import load_regress
-    cases = load_regress(ctx.prop, name) + draw_cases(case_strategy(), 16 if ctx.quick else 300,
-                                                      ctx.seed)
+    cases = load_regress(ctx.prop, name) + draw_stratified(strata(), 16 if ctx.quick else 300,
+                                                           ctx.seed, wrap=with_order)
     for c in cases:
         ctx.record(c, nontrivial(c), labels(c))
     run_cases(ctx, name, cases, check_case)
